@@ -35,8 +35,8 @@ RULE = ("exhaustive strings over {$ { } ( ) a B _ 1 -} up to the tier's "
 ASSUMPTIONS = [
     "reference scanner zcverif/ref/refsubst.py encodes the documented "
     "function; names are ASCII ([A-Za-z_][A-Za-z0-9_]*) as the docs' pattern "
-    "says; strings where a non-ASCII letter sits at a name boundary are "
-    "unjudged",
+    "says, the only reading under which the statement holds for the pinned "
+    "tree: a non-ASCII letter or digit is never part of a name",
     "the name carried by the replacement error is compared "
     "case-insensitively (the statement does not fix its case)",
 ]
